@@ -116,6 +116,7 @@ func runC04(c *ctx) {
 		c.randScript(rcfg{state: side, chk: cfg.chk, cb: 1}, w)
 	}
 	sameKey = 0
+	runC04X(c)
 }
 
 func (c *ctx) randScript(cfg rcfg, w []byte) {
@@ -442,5 +443,6 @@ func runC16(c *ctx) {
 			}
 		}
 	}
+	runC16X(c)
 	runC16W(c)
 }
